@@ -29,7 +29,9 @@ HOOKS_REQUIRED = ["h5py_File_write_dict"]
 RULE = ("seeded class-based zoo over 42 classes (7 core labelled-matrix base classes, 8 progeny covariance matrices, 2 genotype, 3 breeding-value, 4 coancestry, 9 variance-matrix incl. the "
         "generic square taxa-trait base, 2 genetic-map, 3 genomic-model, 2 phenotyping classes); per object: optional label "
         "arrays present/absent, taxa/variants grouped/ungrouped, 1-3 traits, label alphabets ASCII / non-ASCII / with "
-        "separators, sorted / unsorted label order, NaN data, standardised / arbitrary location-scale; table readers told "
+        "separators, sorted / unsorted label order, NaN data, standardised / arbitrary location-scale; objects left by the public "
+        "API in unusual states before they are written or copied (labels renamed through the setters after grouping, rows / "
+        "variants reordered within their groups through the setters, sorted by custom keys, ungrouped after grouping); table readers told "
         "their columns by name / by integer position / mixed, trait columns inferred or listed explicitly, label columns "
         "moved to other places of the frame, every subset of the optional label / group columns switched off on both sides; "
         "hyperparameter dictionaries with containers nested two and three levels deep (copy cases); genetic maps without spline / "
@@ -611,7 +613,98 @@ def build(g, cls_name, richness=None, lcls=None):
     else:
         s = build_pt(g, cls_name, richness, lcls)
     s.meta["richness"] = richness
+    perturb_state(g, s, lcls)
     return s
+
+
+VRNT_ARRAYS = ("vrnt_chrgrp", "vrnt_phypos", "vrnt_name", "vrnt_genpos", "vrnt_xoprob", "vrnt_hapgrp", "vrnt_hapalt", "vrnt_hapref",
+               "vrnt_mask")
+
+
+def _within_group_perm(g, labels, grouped, n=None):
+    """Permutation of an axis that keeps every run of equal group labels in place when the axis is grouped (group index
+    tables stay valid), any permutation otherwise."""
+    n = len(labels) if labels is not None else int(n)
+    if not grouped or labels is None:
+        return g.permutation(n)
+    perm = numpy.arange(n)
+    lab = numpy.asarray(labels)
+    st = 0
+    for i in range(1, n + 1):
+        if i == n or lab[i] != lab[st]:
+            perm[st:i] = st + g.permutation(i - st)
+            st = i
+    return perm
+
+
+def perturb_state(g, spec, lcls):
+    """Bring a labelled matrix into a state the PUBLIC API can leave it in before it is written or copied: labels renamed
+    through the setters after grouping, rows / variants reordered within their groups through the setters, sorted by custom
+    keys, ungrouped after grouping.  Only the object's own public setters and methods are used."""
+    obj, meta = spec.obj, spec.meta
+    if not hasattr(obj, "taxa_axis") and not hasattr(obj, "vrnt_axis"):
+        return
+    if hasattr(obj, "mat") is False or g.random() < 0.45:
+        meta["state"] = "as constructed"
+        return
+    ops = []
+    try:
+        if hasattr(obj, "taxa_axis") and obj.ntaxa > 1:
+            op = pick(g, ["rename", "reorder within groups", "custom sort", "ungroup", "none"])
+            grouped = bool(obj.is_grouped_taxa()) if hasattr(obj, "is_grouped_taxa") else False
+            if op == "rename" and obj.taxa is not None:
+                obj.taxa = mklabels(g, obj.ntaxa, lcls, "r", "unsorted"); ops.append("taxa renamed through the setter")
+            elif op == "reorder within groups":
+                perm = _within_group_perm(g, obj.taxa_grp, grouped, obj.ntaxa)
+                axes = tuple(getattr(obj, "square_taxa_axes", (obj.taxa_axis,)))
+                mat = obj.mat
+                for ax in axes:
+                    mat = numpy.take(mat, perm, axis=ax)
+                tx, tg = obj.taxa, obj.taxa_grp
+                obj.mat = numpy.ascontiguousarray(mat)
+                if tx is not None:
+                    obj.taxa = tx[perm]
+                if tg is not None:
+                    obj.taxa_grp = tg[perm]
+                ops.append("taxa reordered within groups through the setters" if grouped else "taxa reordered through the setters")
+            elif op == "custom sort" and hasattr(obj, "sort_taxa"):
+                obj.sort_taxa(keys=(g.permutation(obj.ntaxa),)); ops.append("taxa sorted by a custom key")
+            elif op == "ungroup" and grouped and hasattr(obj, "ungroup_taxa"):
+                obj.ungroup_taxa(); ops.append("taxa ungrouped after grouping")
+        if hasattr(obj, "vrnt_axis") and obj.nvrnt > 1:
+            op = pick(g, ["rename", "reorder within groups", "custom sort", "ungroup", "none"])
+            grouped = bool(obj.is_grouped_vrnt()) if hasattr(obj, "is_grouped_vrnt") else False
+            if op == "rename" and obj.vrnt_name is not None:
+                obj.vrnt_name = mklabels(g, obj.nvrnt, lcls, "v", "unsorted"); ops.append("variants renamed through the setter")
+            elif op == "reorder within groups":
+                perm = _within_group_perm(g, obj.vrnt_chrgrp, grouped, obj.nvrnt)
+                vals = {f: getattr(obj, f) for f in VRNT_ARRAYS}
+                obj.mat = numpy.ascontiguousarray(numpy.take(obj.mat, perm, axis=obj.vrnt_axis))
+                for f, v in vals.items():
+                    if v is not None:
+                        setattr(obj, f, v[perm])
+                ops.append("variants reordered within chromosomes through the setters" if grouped else "variants reordered through the setters")
+            elif op == "custom sort" and hasattr(obj, "sort_vrnt"):
+                obj.sort_vrnt(keys=(g.permutation(obj.nvrnt),)); ops.append("variants sorted by a custom key")
+            elif op == "ungroup" and grouped and hasattr(obj, "ungroup_vrnt"):
+                obj.ungroup_vrnt(); ops.append("variants ungrouped after grouping")
+    except Exception as e:      # an operation the class does not support in this state: the object stays as it is
+        ops.append("(%s raised %s)" % (op, type(e).__name__))
+    meta["state"] = "; ".join(ops) if ops else "as constructed"
+    # the input classes of the keys describe the object as it is now
+    gt = bool(obj.is_grouped_taxa()) if hasattr(obj, "is_grouped_taxa") else False
+    gv = bool(obj.is_grouped_vrnt()) if hasattr(obj, "is_grouped_vrnt") else False
+    has_grp = getattr(obj, "taxa_grp", None) is not None or getattr(obj, "vrnt_chrgrp", None) is not None
+    meta["gcls"] = "grouped" if (gt or gv) else ("ungrouped" if has_grp else "no group labels")
+    if spec.kind in VMAT_CLASSES:
+        oc = []
+        if obj.taxa is not None and obj.ntaxa > 1:
+            oc.append("taxa labels %s" % ("in sorted order" if _is_sorted(obj.taxa) else "not in sorted order"))
+        if obj.trait is not None and obj.ntrait > 1:
+            oc.append("trait labels %s" % ("in sorted order" if _is_sorted(obj.trait) else "not in sorted order"))
+        meta["dcls"] = "/".join(oc) if oc else "single taxon and trait or labels absent"
+    if spec.kind in CMAT_CLASSES and obj.taxa is not None:
+        meta["dcls"] = "taxa order %s" % ("sorted" if _is_sorted(obj.taxa) else "unsorted")
 
 
 def icls_for(cat, meta):
